@@ -121,6 +121,8 @@ def regenerate():
     notes["linemap"] = translate_linemap.generate(REPO, os.path.join(COQ, "Gen", "SrcLineMap.v"), os.path.join(HARNESS, "fallback"))
     import translate_iter
     notes["iter"] = translate_iter.generate(REPO, os.path.join(COQ, "Gen", "SrcIter.v"), os.path.join(HARNESS, "fallback"))
+    import translate_tail
+    notes["tail"] = translate_tail.generate(REPO, os.path.join(COQ, "Gen", "SrcTail.v"), os.path.join(HARNESS, "fallback"))
     import translate_cli
     notes["cli"] = translate_cli.generate(REPO, os.path.join(COQ, "Gen", "SrcCli.v"), os.path.join(HARNESS, "fallback"))
     import translate_deps
